@@ -63,9 +63,16 @@ def targets_view(result, root):
                 tuple((u.name, S.val(u.heat_flow)) for u in t.cold_utilities),
                 S.val(tp.cold_temp),
                 S.val(tp.hot_temp),
+                S.val(t.utility_cost),
             )
         )
-    return sorted(out, key=lambda r: r[0])
+    digest = []
+    for key, gs in sorted((result.graphs or {}).items()):
+        zone, kind = key.rsplit("/", 1)
+        zone = "<root>" if zone == root else zone
+        for g in gs.graphs:
+            digest.append((f"{zone}/{kind}", g.type, sum(len(sg.data_points) for sg in g.segments)))
+    return sorted(out, key=lambda r: r[0]) + [("graphs", tuple(sorted(digest)))]
 
 
 def vu_case(case):
@@ -339,7 +346,7 @@ def channel_case(draw, tier):
     ops = draw(st.lists(st.sampled_from(["target", "target", "export"]), min_size=0, max_size=3))
     case = {"streams": ss, "utilities": us, "channels": chans, "ops": ops}
     if draw(st.integers(0, 3)) == 0:
-        case["options"] = draw(st.sampled_from([{"DT_CONT": 10.0}, {"DT_CONT": 2.5, "DT_PHASE_CHANGE": 0.5}, {"DO_VERTICAL_GCC": True}, {"DO_BALANCED_CC": False, "DT_CONT": 7.5}]))
+        case["options"] = draw(st.sampled_from([{"DT_CONT": 10.0}, {"DT_CONT": 2.5, "DT_PHASE_CHANGE": 0.5}, {"DO_VERTICAL_GCC": True}, {"DO_BALANCED_CC": False, "DT_CONT": 7.5}, {"UTILITY_PRICE": 0.0}, {"DT_CONT": 0.0, "UTILITY_PRICE": 0}, {"DO_BALANCED_CC": False}, {"UTILITY_PRICE": 125.5, "ANNUAL_OP_TIME": 8000}]))
     return case
 
 
@@ -362,3 +369,5 @@ PARTS = [
     Part("sheetnames", eval_sheetnames, {"quick": 3000, "thorough": 100000}, strategy=lambda tier: sheet_labels(), min_nontrivial={"quick": 1000, "thorough": 30000}),
 ]
 MIN_SHARE = {"channels": {"awkward-name": 0.2, "zones>=2": 0.3, "ch:xlsx": 0.2, "ch:csvdir": 0.2, "ch:json": 0.2}}
+
+FUZZ = {"sheetnames": None}  # parts also driven by the coverage-guided supplement (thorough tier)
